@@ -429,9 +429,20 @@ def main(argv):
             core_out, prof_out = build_harness()
             changed = regen(core_out, prof_out)
         except RuntimeError as e:
-            print(str(e))
-            log('BUILD FAILURE (not a verdict)')
-            return 2
+            # the code can no longer be built or translated into the model: the property is no longer shown to hold
+            print(str(e)[-3000:])
+            path = write_replay(pid, {'property': pid, 'kind': 'build-or-translation-failure',
+                                      'note': 'the harness could not be built against /repo or its generated tables could not be translated into lean/Precis/Gen; no theorem could be re-checked and no correspondence run',
+                                      'log': str(e)[-3000:]})
+            print(f'VIOLATION property={pid} replay={path} no-failing-input-found')
+            ev = {'property_id': pid, 'tier': tier if tier in ('quick', 'thorough') else 'quick', 'seed': seed, 'level': 'proof',
+                  'coverage': {'obligations': 1, 'discharged': 0, 'checker_cmd': 'cargo build / tools/translate.py failed before lake build', 'trusted_base': [],
+                               'evaluations': 0, 'distinct_nontrivial': 0, 'samples': [], 'explanation': 'build or translation failure'},
+                  'assumptions': [], 'wall_s': round(time.time() - t0, 2), 'violations': 1}
+            os.makedirs(EVID, exist_ok=True)
+            with open(os.path.join(EVID, f'{pid}.json'), 'w') as f:
+                json.dump(ev, f, indent=1)
+            return 1
         log(f'built harness, regenerated Gen ({changed}) in {time.time() - t0:.0f}s')
         ctx = Ctx(pid, tier, seed, core_out, prof_out)
         if replay:
